@@ -423,6 +423,7 @@ func runC08(e *Env) Outcome {
 	var alloc uint64
 	var steps int
 	var res Result
+	var reusedFirst []byte
 	if t.Chance("reused-instance", 1, 4) {
 		// one long-lived decoder/unmarshaler: the adversarial document first
 		// (whatever it does), then a small benign one whose cost is measured
@@ -430,6 +431,7 @@ func runC08(e *Env) Outcome {
 		sc.Family += "; then a benign document on the SAME instance (measured)"
 		e.Count("reused_instance_measurements", 1)
 		alloc, steps, res = measuredReused(e, en, doc, second, tmpl, cfg, withRules)
+		reusedFirst = doc
 		doc = second
 		sc.DocLen = len(doc)
 	} else {
@@ -452,11 +454,15 @@ func runC08(e *Env) Outcome {
 		return e.Finish(sig, nil, sc)
 	}
 	if alloc > budget {
-		site := ""
-		if !e.Failed() {
+		site, entry := "", en.String()
+		if reusedFirst != nil {
+			// the cost belongs to state the first document left in the instance
+			entry = "reused:" + entry
+			site = "after-an-earlier-document-on-the-same-instance"
+		} else if !e.Failed() {
 			site = allocSite(e, en, doc, fromDoc, tmpl, cfg, withRules)
 		}
-		e.Fail("alloc-over-budget", fmt.Sprintf("entry=%s site=%s", en, site),
+		e.Fail("alloc-over-budget", fmt.Sprintf("entry=%s site=%s", entry, site),
 			fmt.Sprintf("decoding a %d-byte document allocated %d bytes; budget %d (= 2*base %d + 4 MiB + %d*len + 8*MaxArraySizeBytes when rules are on)", len(doc), alloc, budget, base, k))
 	}
 	if alloc*10 > budget {
